@@ -1,8 +1,77 @@
 (* Property C02 - concurrent publishers never overlap, lose or reorder each other's messages.
-   Statements only; proofs are in Proofs/. *)
+   Statements only; proofs are in Proofs/ (AppenderInv.v defines the invariant AppInv, the admissibility
+   conditions and the ghost claim lists; C02Proofs.v the system and reachability). *)
 Require Import V.Base.MachineInt V.Generated.GenConsts V.Model.LogBase V.Model.Descriptor V.Model.Sched
-               V.Model.AppenderThreads V.Oracle.C02Oracle.
+               V.Model.AppenderThreads V.Oracle.C02Oracle
+               V.Proofs.TailArith V.Proofs.FragArith V.Proofs.AppenderInv V.Proofs.C02Proofs V.Proofs.C02Quiescent.
 Open Scope Z_scope.
+
+(* The invariant holds in every configuration reachable by ANY number of publisher (and environment) threads
+   under EVERY interleaving of admissible steps. A step is admissible (AppenderInv.adm_pub / adm_env) unless
+     - it is a get_and_add that finds another term id in the tail than the one the thread had read from it
+       (known class stalled3: the log rotated a multiple of three times in between), or the 32-bit offset field
+       of the raw tail would overflow;
+     - it is the CAS that rotates the log into a partition which is not clean or in which a publisher still
+       holds an unfinished claim, or a driver-side zeroing of a partition that is not full or still has such a
+       claim (media driver contract, DESIGN 4.5);
+     - it would take the term count beyond 2^30. *)
+Theorem C02_invariant : forall c, wf_cfg c ->
+  forall s th gh, reach c s th gh -> AppInv c s gh (pubs th).
+Proof. exact reach_inv. Qed.
+Print Assumptions C02_invariant.
+
+(* the same for the executable run over a schedule with crash points, as evaluated in the correspondence check *)
+Theorem C02_invariant_run : forall c, wf_cfg c ->
+  forall stop sched limit th, (forall t, init_thread (th t)) ->
+  adm_sched c stop sched (init_shared c limit, th, (fun _ => O), []) ->
+  let '(s, th', g, tr) := run_sched (tstep c) stop sched (init_shared c limit, th, (fun _ => O), []) in
+  exists gh, AppInv c s gh (pubs th').
+Proof. exact run_sched_inv. Qed.
+Print Assumptions C02_invariant_run.
+
+(* ranges obtained by get_and_add on one tail are pairwise disjoint (they are laid back to back: AppInv.iv_chain) *)
+Theorem C02_claims_disjoint : forall c, wf_cfg c -> forall s gh P p e e',
+  AppInv c s gh P -> 0 <= p < 3 -> c_n0 c <= tg c s p ->
+  In e (g_claims gh (tg c s p)) -> In e' (g_claims gh (tg c s p)) ->
+  e = e' \/ e_b e <= e_a e' \/ e_b e' <= e_a e.
+Proof. intros c _. exact (claims_disjoint c). Qed.
+Print Assumptions C02_claims_disjoint.
+
+(* at most one claim starts inside a term and ends beyond it: exactly one publisher pads *)
+Theorem C02_single_padder : forall c, wf_cfg c -> forall s gh P p e e',
+  AppInv c s gh P -> 0 <= p < 3 -> c_n0 c <= tg c s p ->
+  In e (g_claims gh (tg c s p)) -> In e' (g_claims gh (tg c s p)) ->
+  e_a e < TL c < e_b e -> e_a e' < TL c < e_b e' -> e = e'.
+Proof. intros c _. exact (single_padder c). Qed.
+Print Assumptions C02_single_padder.
+
+(* no publisher step ever changes a committed frame *)
+Theorem C02_committed_never_change : forall c, wf_cfg c -> forall s gh P t l s' l' ev p o,
+  AppInv c s gh P -> P t = Some l -> pstep c t s l = Some (s', l', ev) ->
+  0 < s_len (sh_mem s p o) -> sh_mem s' p o = sh_mem s p o.
+Proof. exact committed_never_change. Qed.
+Print Assumptions C02_committed_never_change.
+
+(* at quiescence every live partition is a gap-free sequence of well-formed committed frames from its base to
+   min(tail, term length) - the data frames of the accepted messages in claim order, one padding frame iff a
+   claim straddled the term end - and zero from there on *)
+Theorem C02_quiescent_tiles : forall c, wf_cfg c -> forall s gh P p,
+  AppInv c s gh P -> quiescent P -> 0 <= p < 3 ->
+  c_n0 c <= tg c s p -> g_cleaned gh (tg c s p) = false ->
+  tiles c (sh_mem s p) (tid_of c (tg c s p)) (base c (tg c s p)) (Z.min (toff s p) (TL c)) /\
+  (forall o, Z.min (toff s p) (TL c) <= o -> sh_mem s p o = zslot).
+Proof. exact quiescent_tiles. Qed.
+Print Assumptions C02_quiescent_tiles.
+
+(* what a publisher is told about a claim: the position at the end of its own message when the message was
+   written (claim inside the term), AdminAction (retry) when the claim tripped the term end *)
+Theorem C02_claim_result : forall c, wf_cfg c -> forall s gh P g e,
+  AppInv c s gh P -> In e (g_claims gh g) ->
+  exists l, P (e_t e) = Some l /\
+    ((e_j e < length (p_res l))%nat ->
+       nth (e_j e) (p_res l) Panic = (if e_b e <=? TL c then Ok (g * TL c + e_b e) else Err AdminAction)).
+Proof. intros c W. exact (claim_result c). Qed.
+Print Assumptions C02_claim_result.
 
 (* the known class is inhabited: publisher 0 parked between the tail read and its get_and_add while publisher 1
    fills three terms panics and the property's predicate fails on that run *)
@@ -17,3 +86,23 @@ Theorem C02_stalled3_witness :
   nth 0 (snd (fst stalled3_run)) (Done, []) = (Panicked, [Panic]).
 Proof. vm_compute. repeat split; reflexivity. Qed.
 Print Assumptions C02_stalled3_witness.
+
+(* the hypotheses are satisfiable: a legal geometry, an initial configuration with three publishers, and a
+   reachable configuration after two of them have read the limit *)
+Example C02_example_cfg : wf_cfg (mkCfg 2147483646 10 256 11 22 1 960).
+Proof. constructor; cbn; try (vm_compute; intuition congruence). Qed.
+
+Example C02_example_reach :
+  let c := mkCfg 2147483646 10 256 11 22 1 960 in
+  let th := threads_of [pub 3 [payload 1 40]; pub 3 [payload 2 100]; pub 2 [payload 3 0]] in
+  exists s th' gh, reach c s th' gh /\ (exists l, th' 1%nat = TPub l /\ p_pc l = PReadCount).
+Proof. intros c th.
+  assert (R0 : reach c (init_shared c 4096) th ghost0).
+  { apply reach_init. intros t.
+    destruct t as [|t]; [exists [payload 1 40], 3%nat; reflexivity|].
+    destruct t as [|t]; [exists [payload 2 100], 3%nat; reflexivity|].
+    destruct t as [|t]; [exists [payload 3 0], 2%nat; reflexivity|].
+    unfold th, threads_of. cbn [nth]. destruct t; exact I. }
+  pose proof (reach_step c _ th ghost0 0%nat _ _ _ R0 I eq_refl) as R1.
+  pose proof (reach_step c _ _ _ 1%nat _ _ _ R1 I eq_refl) as R2.
+  eexists. eexists. eexists. split; [exact R2|]. eexists. split; reflexivity. Qed.
